@@ -28,6 +28,7 @@ RULE = (
     "issues of that validator for that rule id. Non-trivial = >= 1 expected issue and >= 2 "
     "validators, or a duplicate group of size >= 3."
 )
+RULE += (" " + 'File paths have equal and different leaf directory names under different ancestors, nested and relative forms.')
 ASSUMPTIONS = [
     "vf/ref/conditions.py defines which detections a condition refers to",
     "issues are compared as multisets (the order in which issues are reported is C20's subject)",
